@@ -377,6 +377,7 @@ func TestVerifProc(t *testing.T) {
 		n = 19 * 20 * 4
 	}
 	vWithSupervisor(t, func(ctx context.Context) {
+		vRunScripts(t, ctx, w, o, 100000)
 		for i := 0; i < n; i++ {
 			o.emit(vGenHistory(t, ctx, w, i))
 		}
